@@ -30,12 +30,8 @@ func checkC18(c *Ctx) {
 	for _, fn := range []string{"GetMcRootKeyForGenAppKey", "GetMcRootKeyForAppKey", "GetMcKEKey", "GetMcAppSKey", "GetMcNetSKey"} {
 		ruleStateless(c, "R6.keys-stateless", c.Prog.SSAFunc("applayer/multicastsetup", fn))
 	}
-	c18EncoderTotalHook(c)
-}
-
-// c18EncoderTotalHook is replaced by the SSA guard engine's rule after merge.
-var c18EncoderTotalHook = func(c *Ctx) {
-	c.Run.Note("R4 (encoder nil-dereference guards) is provided by the SSA guard engine")
+	c18EncoderTotal(c)
+	c18StreamConvention(c)
 }
 
 func c18Keys(c *Ctx) {
